@@ -89,6 +89,8 @@ func Harness_C10(holeN int, required int, boardN int, seats int) {
 		dp += holeN
 		p.Bankroll = vInt64("bankroll")
 		p.StackSize = vInt64("stack")
+		// "for every player": a folded seat's reported hand follows the board like everybody else's
+		p.Fold = vBool("fold")
 	}
 	gs.Status.Board = append([]string{}, deck[dp:dp+boardN]...)
 	gs.Status.CurrentDeckPosition = dp + boardN
